@@ -7,7 +7,7 @@ panics are values (rule R-panic), so "panics iff L != N" is an ordinary postcond
 import re
 
 NAME = 'views'
-PROPS = ['C02', 'C10']
+PROPS = ['C02', 'C10', 'C18']
 DROPPED = 'bytes (offsets are in elements; element size is factored out by C01); panic messages; the const-ness of the functions'
 FILE = 'src/lib.rs'
 GA = 'impl<T, N: ArrayLength> GenericArray<T, N>'
@@ -35,7 +35,7 @@ RULES = [
     ('R-ptr', r'\bslice::from_raw_parts(?:_mut)?\(', 'from_raw_parts('),
     ('R-panic', r'panic!\("[^"]*"\);', 'return PanicOr::Panic;'),
     # a debug assertion is absent in release builds: it guarantees nothing, but it must never be able to fail
-    ('R-panic', r'debug_assert!\( ?([^,;]+?)(?:, "[^"]*")?,? ?\);', r'if !(\1) { assert(false) /*OB:views.debug-assertion-can-never-fail:C02,C10*/; }'),
+    ('R-panic', r'debug_assert!\( ?([^,;]+?)(?:, "[^"]*")?,? ?\);', r'if !(\1) { assert(false) /*OB:views.debug-assertion-can-never-fail:C02,C10,C18*/; }'),
     ('R-panic', r'(?<!debug_)assert!\( ?([^,]+), "[^"]*",? ?\);', r'if !(\1) { return PanicOr::Panic; }'),
     ('R-view', r'\(&(?:mut )?\[\], &(?:mut )?\[\]\)', '(Sl::empty(), Sl::empty())'),
     ('R-panic', r'\breturn (?!PanicOr)([^;]+);', r'return PanicOr::Ret(\1);'),
@@ -64,7 +64,7 @@ def generate(g, ex):
                 raise ex.Unsupported('%s: anchor for proof hint lost: %s' % (name, pat))
         body = 'let __r = { ' + body + ' }; PanicOr::Ret(__r)'
         ex.check_supported(name, body, allow=('.cast(', '.add('))
-        g.emit_fn(Fn(name, FILE, f['line'], f['sig'], vsig, body, requires, ensures, stats, n, PROPS))
+        g.emit_fn(Fn(name, FILE, f['line'], f['sig'], vsig, body, requires, [(l, pp + ['C18'], t) for l, pp, t in ensures], stats, n, PROPS))
 
     ALIAS = 'ret->Ret_0.base == %s.base && ret->Ret_0.off == %s.off'
     one('as_slice', 'pub fn as_slice<N: ArrayLength>(self_: Sl) -> (ret: PanicOr<Sl>)', ['self_.stride == N::n()', 'self_.len == 1', 'self_.valid()'],
@@ -120,5 +120,5 @@ def generate(g, ex):
 
 def props_for(fname, what):
     if fname and ('chunks' in fname):
-        return ['C10']
-    return ['C02']
+        return ['C10', 'C18']
+    return ['C02', 'C18']
